@@ -178,3 +178,30 @@ package nflog
 //@   ensures [missing-interval-or-stop-runs-nothing] (interval == 0 || stopc == nil) ==> !called("Maintenance$2") && !called("select")
 //@   loop 1 invariant count("Maintenance$2") == count("select") && count("select") >= 0
 //@   noeffect Maintenance$2 time.NewTicker Ticker).Stop
+// ---- C04 / C10: what the dedup stage reads. The two query parameters record the receiver and the group key; the
+// query answers with exactly the entry filed under the key of that group and receiver (the key Log writes under), a
+// not-found error when there is none, and an error - without reading the log - when a parameter is missing.
+//@ func QReceiver$1
+//@   props C04 C10
+//@   requires q != nil && r != nil
+//@   ensures [records-receiver] result == nil && q.recv == deref(r) && q.groupKey == old(q.groupKey)
+//@   assigns q.recv
+//@ func QGroupKey$1
+//@   props C04 C10
+//@   requires q != nil && gk != nil
+//@   ensures [records-group] result == nil && q.groupKey == deref(gk) && q.recv == old(q.recv)
+//@   assigns q.groupKey
+//@ func (*Log).Query$1
+//@   props C04 C10
+//@   nosafe
+//@   at call dynamic:elem:freevar:params assert [one-query-object] arg0 == q && fresh(arg0)
+//@   at call nflog.stateKey assert [key-of-group-and-receiver] arg0 == q.groupKey && arg1 == q.recv && q.recv != nil && q.groupKey != "" && count("dynamic:elem:freevar:params") == len(deref(params))
+//@   ensures [found-entry-is-returned] called("nflog.stateKey") && (ret("nflog.stateKey") in deref(l).st) ==> result1 == nil && len(result0) == 1 && result0[0] == deref(l).st[ret("nflog.stateKey")].Entry
+//@   ensures [missing-entry-is-not-found] called("nflog.stateKey") && !(ret("nflog.stateKey") in deref(l).st) ==> result1 == ErrNotFound && result0 == nil
+//@   ensures [incomplete-query-is-an-error] !called("nflog.stateKey") ==> result1 != nil && result0 == nil
+//@   loop 1 invariant rangeindex < len(deref(params)) && count("dynamic:elem:freevar:params") == rangeindex + 1 && (called("dynamic:elem:freevar:params") ==> ret("dynamic:elem:freevar:params") == nil) && !called("nflog.stateKey")
+//@   freshonly dynamic:elem:freevar:params
+//@ func (*Log).Query
+//@   props C04 C10
+//@   nosafe
+//@   ensures [answer-of-the-lookup] called("Query$1") && result0 == ret("Query$1") && result1 == ret1("Query$1")
